@@ -164,9 +164,17 @@ func GetSignalCells(
 	// Pos is the position within the bitstream.
 	pos := startOfSignalCells
 
-	// Find the number of signal cells, ignoring any padding.
+	// The number of signal cells is given by the cell mask in the header.  It
+	// can't be inferred from the bits that follow the satellite cells because a
+	// cell can legitimately be all zeros and because the signal data may be
+	// followed by any number of zero padding bytes (and the CRC).  The bit stream
+	// may be too short to hold all of the cells, so limit the number to those
+	// that will fit.
 
-	numSignalCells := utils.GetNumberOfSignalCells(bitStream, pos, bitsPerCell)
+	numSignalCells := header.NumSignalCells
+	if cellsThatFit := int(bitsLeftInFrame / bitsPerCell); cellsThatFit < numSignalCells {
+		numSignalCells = cellsThatFit
+	}
 
 	if header.MultipleMessage {
 		// The message doesn't contain all the signal cells but there should be
